@@ -422,6 +422,44 @@ func TestVerifC04(t *testing.T) {
 						}
 					}
 				}
+			case kind < 59 && r.Chance(1, 4): // IdentityMapRegion of a header page, then of the whole table from the same page with the allocator failing
+				base := (uint64(r.Intn(1<<15))+1)*512 + uint64(r.PickInt([]int{509, 510, 511}))
+				npages := uint64(r.Range(3, 5))
+				if base+npages >= uint64(m.arena.Base>>12)-1 && base <= uint64(m.arena.End()>>12)+1 {
+					continue
+				}
+				flags1, flags2 := c04GenFlags(r), c04GenFlags(r)
+				s.opDesc = fmt.Sprintf("IdentityMapRegion(frame=%#x, size=4096, flags=%#x) then IdentityMapRegion(frame=%#x, size=%d, flags=%#x) with the first frame allocation refused", base, flags1, base, npages*4096, flags2)
+				fp = fp.U64(base).U64(npages).U64(flags1).U64(flags2).Int(40)
+				if pg, err := IdentityMapRegion(mm.Frame(base), 4096, PageTableEntryFlag(flags1)); err != nil || uint64(pg) != base {
+					s.fail("identitymap-result", "IdentityMapRegion of one page returned (%#x, %v)", uint64(pg), err)
+					break
+				}
+				act.applyMap(uintptr(base<<12), base, flags1)
+				m.failAt = 1
+				_, err := IdentityMapRegion(mm.Frame(base), uintptr(npages*4096), PageTableEntryFlag(flags2))
+				injected := m.failAt == 0
+				m.failAt = 0
+				run.Count("op_identitymapregion_over_a_mapped_page_with_allocation_failure", 1)
+				if injected {
+					usedFail = true
+					if err != vmAllocErr {
+						s.fail("alloc-error-not-returned", "allocator failed but IdentityMapRegion returned %v", err)
+					}
+				} else if err != nil {
+					s.fail("identitymap-result", "IdentityMapRegion returned %v although no allocation was refused", err)
+				}
+				// every page of the request now shows either what the request asked for or what it showed before
+				// (mapped by the first request, or nothing); the comparison after the operation rejects anything else
+				for k := uint64(0); k < npages; k++ {
+					va := uintptr((base + k) << 12)
+					want := c04Entry(c04Mapping{base + k, flags2})
+					if e := m.leafEntry(act.root.Address(), va); (e != nil && *e == want) || (!injected && err == nil) {
+						act.applyMap(va, base+k, flags2)
+					} else if _, known := act.model[va]; !known {
+						act.residue[va] = true
+					}
+				}
 			case kind < 59: // IdentityMapRegion
 				frame := uint64(r.Intn(1<<24)) + 1
 				if r.Bool() {
